@@ -168,6 +168,8 @@ def run(ctx, res):
                 reqs.append('dotregex pinned %s' % st['REGEX']); index.append((i, sh, 'rx-model'))
                 reqs.append('dotregex patched %s' % st['REGEX']); index.append((i, sh, 'rx-model-patched'))
                 reqs.append('dotjudgeregex %s %s' % (st['REGEX'], st['REGEXDOT'])); index.append((i, sh, 'rx-judge'))
+                if sh == 'bash':
+                    reqs.append('dotrxwf %s' % st['REGEX']); index.append((i, sh, 'rx-wf'))
             if st.get('MIN', '').startswith('(ok ') and 'DFADOT' in st:
                 mn = st['MIN'][4:-1]
                 reqs.append('dotdfa pinned %d %s' % (BASE[sh], mn)); index.append((i, sh, 'dfa-model'))
@@ -231,6 +233,10 @@ def run(ctx, res):
                 judge = by[(i, sh, 'rx-judge')]
                 if tie:
                     res.traces_validated += 1
+                if by.get((i, sh, 'rx-wf'), 'true') != 'true':
+                    res.violations.append(report.Violation(
+                        'C16: Rust\'s regex arena is not well-formed in the sense of the theorems (rx_wf_b): ' + by[(i, sh, 'rx-wf')],
+                        dict(replay, kind='theorem-hypothesis'), found_input=False))
                 if judge != '(ok)':
                     cls = None
                     c = sexp.parse(by[(i, sh, 'rx-class')])
